@@ -210,6 +210,11 @@ def load_module_from_file_object(
     timestamp = 0
     try:
         magic = fp.read(4)
+        if len(magic) != 4:
+            # The size check in load_module() cannot be relied on: it is not
+            # made for file objects, and some files deliver fewer bytes than
+            # their stat size promises (kernel pseudo-files, truncation).
+            raise ImportError(f"Bad magic number: '{magic}' in {filename}")
         magic_int = magic2int(magic)
 
         # For reasons I don't understand, PyPy 3.2 stores a magic
